@@ -10,12 +10,14 @@ import importlib
 import io
 import os
 import sys
+import warnings
 
 from harness.common import CACHE, REPO
 
 if str(REPO) not in sys.path:
     sys.path.insert(0, str(REPO))
 
+warnings.filterwarnings("ignore")
 _cls_cache: dict = {}
 
 
